@@ -14,4 +14,9 @@ if [ "$stale" = 1 ]; then
   mkdir -p /verif/bin
   (cd checker && go build -o "$BIN" ./cmd/bipcheck) || { echo "cannot build bipcheck"; exit 2; }
 fi
+if [ "$TIER" = thorough ]; then
+  # self-test of the analyser's own domains (integer sets, layouts) against brute force / big integers:
+  # a failure means the checker is broken, not the repository
+  (cd checker && go test -count=1 ./internal/an >/dev/null 2>&1) || { echo "bipcheck self-test failed: the analyser is broken (cd /verif/checker && go test ./internal/an)"; exit 2; }
+fi
 exec "$BIN" -repo "${VERIF_REPO:-/repo}" -property "$ID" -tier "$TIER" -out /verif/evidence -known /verif/known_findings.json
